@@ -822,6 +822,7 @@ def run_on(rep, prog):
     c07.r07g(rep, prog, only_files=('forestindex', 'spanning_forest'))
     c07.r07h(rep, prog, only_files=('forestindex', 'spanning_forest'))
     c07.r07j(rep, prog, only_files=('forestindex', 'spanning_forest'))
+    c07.r07r(rep, prog, only_files=('forestindex', 'spanning_forest'))
     return n
 
 
@@ -834,6 +835,7 @@ def run(rep, tier):
     rep.rule('R16e', 'index order is address-free', floor=1)
     rep.rule('R16g', 'index tables are built before they are read', floor=2)
     rep.rule('R16h', 'n, m and the component count are assigned on every path through create_index', floor=1)
+    rep.rule('R07r', 'the forest construction keeps no reference into a work list across a push (any graph size, any heap state)', floor=0)
     rep.rule('R07j', 'the forest is built without recursion along the graph (any graph size)', floor=0)
     rep.rule('R07h', 'sizes used while building the index do not wrap for the empty graph (ForestIndex of the empty graph: c = 0, dimension 0)', floor=0)
     rep.rule('R07g', 'the index construction keeps no function-local static state (each ForestIndex is built from its own graph only)', floor=0)
